@@ -1114,6 +1114,18 @@ def units():
     return us
 
 
+def declared_side_units():
+    """the declared read / write sets only (what A-FUSE's renaming and the builder's dependency tracking consult);
+    without the interpreter side and without the identity-mapper chain"""
+    out = []
+    for u in units():
+        c = getattr(u, "contract", None)
+        if isinstance(c, ExecContract) or getattr(c, "identity", False):
+            continue
+        out.append(u)
+    return out
+
+
 LEVEL = "proof"
 BOUNDED = {"quick": {"timeout_s": 60}, "thorough": {"timeout_s": 600}}
 TRUSTED_BASE = [
